@@ -140,6 +140,7 @@ def part_grader(ctx):
         used = rng.sample(keys, nk) if rng.random() < 0.6 else list(keys)
         rng.shuffle(used)
         pos = {k: i + 1 for i, k in enumerate(used)}
+        pos = dict(sorted(pos.items(), key=lambda kv: rng.random()))      # the ORDER in which the author lists the keys is not the order of the boxes
         ans = {'lower': str(lo), 'upper': str(hi), 'summand': txt, 'summation_variable': var}
         tol = rng.choice([1e-12, 0, '0.01%', 0.5, '10%', '10%'])
         try:
